@@ -512,6 +512,7 @@ impl<'a> Lifter<'a> {
                     "RGAS" => return Ok(v("RGAS()", "real")),
                     // A11: there is no NaN over the reals - `f64::NAN` as a *value* (a marker for "no result") is one
                     // uninterpreted real constant
+                    "f64::EPSILON" => return Ok(v("(1real / 4503599627370496real)", "real")), // 2^-52, exact
                     "f64::NAN" => {
                         self.note("A11", e.span(), "`f64::NAN` as a value lifted to the uninterpreted constant r_nan()");
                         return Ok(v("r_nan()", "real"));
@@ -2175,6 +2176,14 @@ impl<'a> Lifter<'a> {
                 self.note("L11", whole.span(), "unit constructor erased");
                 return self.expr(&c.args[0]);
             }
+            // `D::from(x)` where the (dual-number) type D is lifted to real and x is a real: the identity
+            "from" if p.path.segments.len() == 2 && c.args.len() == 1 && self.reg.types.get(&first).map(|t| t == "real").unwrap_or(false) => {
+                let x = self.expr(&c.args[0])?;
+                if x.ty == "real" {
+                    return Ok(x);
+                }
+                return unsupported("conversion", whole);
+            }
             "new" if (first == "Arc" || first == "Rc" || first == "Box") && c.args.len() == 1 => {
                 self.note("L12", whole.span(), "smart-pointer constructor is the identity");
                 return self.expr(&c.args[0]);
@@ -2387,6 +2396,49 @@ impl<'a> Lifter<'a> {
 
     fn method(&mut self, m: &syn::ExprMethodCall, whole: &syn::Expr) -> R<Val> {
         let name = m.method.to_string();
+        // L16c: `opt.map_or_else(|| d, f)` with f = `Ok` / `Some` / a one-parameter closure: match
+        if name == "map_or_else" && m.args.len() == 2 {
+            if let syn::Expr::Closure(dcl) = &m.args[0] {
+                if dcl.inputs.is_empty() {
+                    let recv = self.expr(&m.receiver)?;
+                    if let Some(inner) = recv.ty.strip_prefix("Option<").and_then(|t| t.strip_suffix('>')).map(|t| t.to_string()) {
+                        self.closure_base.push(self.env.len());
+                        self.env.push(HashMap::new());
+                        let dflt = self.scoped(&dcl.body);
+                        self.env.pop();
+                        self.closure_base.pop();
+                        let dflt = dflt?;
+                        let (some_text, some_ty) = match &m.args[1] {
+                            syn::Expr::Path(p) if p.path.is_ident("Ok") => ("Ok(x__)".to_string(), if dflt.ty.starts_with("Result<") { dflt.ty.clone() } else { format!("Result<{inner}, LErr>") }),
+                            syn::Expr::Path(p) if p.path.is_ident("Some") => ("Some(x__)".to_string(), format!("Option<{inner}>")),
+                            other => {
+                                let (pn, body) = self.closure1(other, &inner)?;
+                                (format!("{{ let {pn} = x__; {} }}", body.text), body.ty)
+                            }
+                        };
+                        if some_ty != dflt.ty && !dflt.ty.contains('?') && !some_ty.contains('?') {
+                            return Err(format!("construct outside rule list (lift): map_or_else of {} and {}", dflt.ty, some_ty));
+                        }
+                        return Ok(v(format!("(match {} {{ Some(x__) => {some_text}, None => {} }})", recv.text, dflt.text), &some_ty));
+                    }
+                }
+            }
+        }
+        // `Zip::from(&a).map_collect(|&x| e)` is `a.mapv(|x| e)`
+        if name == "map_collect" && m.args.len() == 1 {
+            if let syn::Expr::Call(c) = &*m.receiver {
+                if let syn::Expr::Path(fp) = &*c.func {
+                    if Self::path_str(&fp.path) == "Zip::from" && c.args.len() == 1 {
+                        let recv = self.expr(&c.args[0])?;
+                        if recv.ty == "RArr" {
+                            let (pn, body) = self.closure1(&m.args[0], "real")?;
+                            let (pre, rn, post) = self.arr_bind(&recv);
+                            return Ok(v(format!("{pre}RArr {{ len: {0}.len, at: |i__: int| {{ let {pn} = ({0}.at)(i__); {1} }} }}{post}", rn, body.text), "RArr"));
+                        }
+                    }
+                }
+            }
+        }
         // L9b: `a2.index_axis(Axis(0), i)` / `Axis(1)`: row / column i of a two-dimensional array
         if name == "index_axis" && m.args.len() == 2 {
             if let syn::Expr::Call(c) = &m.args[0] {
@@ -2673,6 +2725,8 @@ impl<'a> Lifter<'a> {
                 }
                 return Ok(recv);
             }
+            // the real part of a (dual) number lifted to a real is the number itself
+            ("re", "real") if args.is_empty() => return Ok(recv),
             ("exp", "real") => return Ok(r1("rexp", &recv)),
             ("ln", "real") => return Ok(r1("rln", &recv)),
             ("sqrt", "real") => return Ok(r1("rsqrt", &recv)),
@@ -2735,7 +2789,8 @@ impl<'a> Lifter<'a> {
                     let f = self.hoist_closure("sumterm", &ids, "i__s", &body);
                     return Ok(v(format!("rsum({}.len, {f})", recv.text), "real"));
                 }
-                return Ok(v(format!("rsum({0}.len, {0}.at)", recv.text), "real"));
+                let (pre, rn, post) = self.arr_bind(&recv);
+                return Ok(v(format!("{pre}rsum({0}.len, {0}.at){post}", rn), "real"));
             }
             ("get", "RArr") if args.len() == 1 => return self.elem(&recv, &args[0].text),
             ("mapv" | "map", "RArr") if m.args.len() == 1 => {
@@ -3093,7 +3148,7 @@ pub fn lift_fn(ctx: &mut Ctx, blk: &Block) -> Result<(String, Value), String> {
     let mut out_param = None;
     for a in &f.sig.inputs {
         match a {
-            syn::FnArg::Receiver(_) if blk.opt("tail_from").is_some() || blk.opt("let_of").is_some() => {}
+            syn::FnArg::Receiver(_) if blk.opt("tail_from").is_some() || blk.opt("let_of").is_some() || blk.opt("assign_of").is_some() => {}
             syn::FnArg::Receiver(_) => {
                 let t = match &self_ty {
                     Some(st) => reg.types.get(st).cloned().unwrap_or(format!("L_{st}")),
@@ -3114,7 +3169,7 @@ pub fn lift_fn(ctx: &mut Ctx, blk: &Block) -> Result<(String, Value), String> {
                 }
                 let ty = match lift_type(reg, &t.ty, self_ty.as_deref()) {
                     Ok(t) => t,
-                    Err(_) if blk.opt("tail_from").is_some() || blk.opt("let_of").is_some() => continue, // tail lifts declare what they read themselves
+                    Err(_) if blk.opt("tail_from").is_some() || blk.opt("let_of").is_some() || blk.opt("assign_of").is_some() => continue, // tail lifts declare what they read themselves
                     Err(e) => return Err(format!("parameter {pn}: {e}")),
                 };
                 params.push((pn, ty));
@@ -3130,9 +3185,46 @@ pub fn lift_fn(ctx: &mut Ctx, blk: &Block) -> Result<(String, Value), String> {
         if parts.len() != 3 {
             return Err("lift: closure=<local>:<param>:<type>".into());
         }
-        let (cname, pname, pty) = (parts[0], parts[1], parts[2]);
+        let (cname0, pname, pty) = (parts[0], parts[1], parts[2]);
+        // `closure=@callee.k:..`: the closure is the k-th argument of the first call of `callee` (a local bound to a
+        // closure, whatever its name, or a closure written in place) - the directive follows the data flow, not a name
+        let mut inline_cl: Option<syn::ExprClosure> = None;
+        let mut cname_owned = cname0.to_string();
+        if let Some(rest) = cname0.strip_prefix('@') {
+            let (callee, k) = rest.split_once('.').ok_or("closure=@callee.k:<param>:<type>")?;
+            let k: usize = k.parse().map_err(|_| "closure=@callee.k:<param>:<type>")?;
+            struct FindCall<'x> { callee: String, arg: Option<&'x syn::Expr>, k: usize }
+            impl<'ast> syn::visit::Visit<'ast> for FindCall<'ast> {
+                fn visit_expr_call(&mut self, c: &'ast syn::ExprCall) {
+                    if self.arg.is_none() {
+                        if let syn::Expr::Path(p) = &*c.func {
+                            if p.path.segments.last().map(|s| s.ident == self.callee).unwrap_or(false) {
+                                self.arg = c.args.iter().nth(self.k);
+                            }
+                        }
+                    }
+                    syn::visit::visit_expr_call(self, c);
+                }
+            }
+            let mut fc = FindCall { callee: callee.to_string(), arg: None, k };
+            syn::visit::Visit::visit_block(&mut fc, f.block);
+            match fc.arg {
+                Some(syn::Expr::Path(p)) if p.path.get_ident().is_some() => cname_owned = p.path.get_ident().unwrap().to_string(),
+                Some(syn::Expr::Closure(cl)) => inline_cl = Some(cl.clone()),
+                _ => return Err(format!("lost anchor: no call of `{callee}` with a closure as argument {k} in {path}")),
+            }
+        }
+        let cname = cname_owned.as_str();
         let mut found = None;
+        if let Some(cl) = inline_cl {
+            // the closure is written inside the statement that calls `callee`: every statement before that one is "before"
+            let pos = f.block.stmts.iter().position(|st| st.to_token_stream().to_string().contains(&cl.to_token_stream().to_string())).unwrap_or(f.block.stmts.len().saturating_sub(1));
+            found = Some((pos, cl));
+        }
         for (k, st) in f.block.stmts.iter().enumerate() {
+            if found.is_some() {
+                break;
+            }
             if let syn::Stmt::Local(l) = st {
                 if let (syn::Pat::Ident(pi), Some(init)) = (&l.pat, &l.init) {
                     if pi.ident == cname {
@@ -3149,9 +3241,12 @@ pub fn lift_fn(ctx: &mut Ctx, blk: &Block) -> Result<(String, Value), String> {
             Some(syn::Pat::Type(t)) if cl.inputs.len() == 1 => t.pat.to_token_stream().to_string(),
             _ => return Err("construct outside rule list (lift): closure arity / pattern".into()),
         };
-        if cl_param != pname {
-            return Err(format!("lost anchor: the closure bound to `{cname}` takes `{cl_param}`, not `{pname}`"));
-        }
+        // the lifted function's parameter carries the name the directive gives; the closure's own name for it is a local
+        let rename: Option<syn::Stmt> = if cl_param != pname {
+            Some(syn::parse_str(&format!("let {cl_param} = {pname};")).map_err(|e| e.to_string())?)
+        } else {
+            None
+        };
         let body_blk: syn::Block = match &*cl.body {
             syn::Expr::Block(b) => b.block.clone(),
             other => syn::Block { brace_token: Default::default(), stmts: vec![syn::Stmt::Expr(other.clone(), None)] },
@@ -3202,6 +3297,9 @@ pub fn lift_fn(ctx: &mut Ctx, blk: &Block) -> Result<(String, Value), String> {
                 stmts.push(st);
             }
         }
+        if let Some(r) = rename {
+            stmts.push(r);
+        }
         stmts.extend(body_blk.stmts.iter().cloned());
         synth_block = Some(syn::Block { brace_token: Default::default(), stmts });
         params.push((pname.to_string(), pty.to_string()));
@@ -3239,6 +3337,29 @@ pub fn lift_fn(ctx: &mut Ctx, blk: &Block) -> Result<(String, Value), String> {
                 syn::visit::Visit::visit_stmt(&mut PB(&mut before), st);
             }
         }
+        // L28b: the tail start is moved upwards over the contiguous run of immutable `let x = <expr>;` statements directly
+        // before it whose names the tail reads and the directive does not list - splitting the first statement of the
+        // tail into several `let`s does not lose the anchor.  (Only directly adjacent statements: nothing can have
+        // changed what they read between them and the tail.)
+        let mut stmts = stmts;
+        let mut k = k;
+        while k > 0 {
+            let tail_blk = syn::Block { brace_token: Default::default(), stmts: stmts.clone() };
+            let used = Lifter::idents_of(&tail_blk);
+            let st = &f.block.stmts[k - 1];
+            let mut ok = false;
+            if let syn::Stmt::Local(l) = st {
+                if let (syn::Pat::Ident(pi), Some(_)) = (&l.pat, &l.init) {
+                    let n = pi.ident.to_string();
+                    ok = pi.mutability.is_none() && used.contains(&n) && !params.iter().any(|(p, _)| *p == n);
+                }
+            }
+            if !ok {
+                break;
+            }
+            stmts.insert(0, st.clone());
+            k -= 1;
+        }
         let tail_blk = syn::Block { brace_token: Default::default(), stmts: stmts.clone() };
         let used = Lifter::idents_of(&tail_blk);
         let mut own: Vec<String> = Vec::new();
@@ -3261,7 +3382,60 @@ pub fn lift_fn(ctx: &mut Ctx, blk: &Block) -> Result<(String, Value), String> {
     // L29 binding-as-function: `let_of=<local> tail_locals=a:T;b:U ret=<type>` lifts the initialiser of the (first) binding
     // of <local> - wherever it sits, e.g. in the innermost of nested loops the lifter cannot read - as a function of the
     // listed variables; every variable the initialiser reads must be listed
-    if let Some(lname) = blk.opt("let_of") {
+    let let_or_assign: Option<String> = blk.opt("let_of").map(|x| x.to_string()).or(blk.opt("assign_of").map(|x| format!("={x}")));
+    if let Some(lname0_owned) = let_or_assign {
+        let lname0 = lname0_owned.as_str();
+        // `let_of=@callee.k[.m]`: the local is named by the data flow - the identifier handed to the first call of
+        // `callee` (function or method) as argument k (element m of it when the argument is a tuple)
+        let mut lname_owned = lname0.to_string();
+        if let Some(rest) = lname0.strip_prefix('@') {
+            let parts: Vec<&str> = rest.split('.').collect();
+            if parts.len() < 2 || parts.len() > 3 {
+                return Err("let_of=@callee.k[.m]".into());
+            }
+            let callee = parts[0].to_string();
+            let k: usize = parts[1].parse().map_err(|_| "let_of=@callee.k[.m]")?;
+            let m: Option<usize> = match parts.get(2) { Some(x) => Some(x.parse().map_err(|_| "let_of=@callee.k[.m]")?), None => None };
+            struct FindArg<'x> { callee: String, k: usize, arg: Option<&'x syn::Expr> }
+            impl<'ast> syn::visit::Visit<'ast> for FindArg<'ast> {
+                fn visit_expr_method_call(&mut self, c: &'ast syn::ExprMethodCall) {
+                    if self.arg.is_none() && c.method == self.callee {
+                        self.arg = c.args.iter().nth(self.k);
+                    }
+                    syn::visit::visit_expr_method_call(self, c);
+                }
+                fn visit_expr_call(&mut self, c: &'ast syn::ExprCall) {
+                    if self.arg.is_none() {
+                        if let syn::Expr::Path(p) = &*c.func {
+                            if p.path.segments.last().map(|s| s.ident == self.callee).unwrap_or(false) {
+                                self.arg = c.args.iter().nth(self.k);
+                            }
+                        }
+                    }
+                    syn::visit::visit_expr_call(self, c);
+                }
+            }
+            let mut fa = FindArg { callee: callee.clone(), k, arg: None };
+            syn::visit::Visit::visit_block(&mut fa, f.block);
+            let mut e = fa.arg.ok_or(format!("lost anchor: no call of `{callee}` with an argument {k} in {path}"))?;
+            if let Some(m) = m {
+                let syn::Expr::Tuple(t) = e else { return Err(format!("lost anchor: argument {k} of `{callee}` is not a tuple in {path}")) };
+                e = t.elems.iter().nth(m).ok_or(format!("lost anchor: argument {k} of `{callee}` has no element {m} in {path}"))?;
+            }
+            loop {
+                match e {
+                    syn::Expr::Reference(r) => e = &r.expr,
+                    syn::Expr::Paren(p) => e = &p.expr,
+                    syn::Expr::MethodCall(mc) if mc.method == "clone" && mc.args.is_empty() => e = &mc.receiver,
+                    _ => break,
+                }
+            }
+            match e {
+                syn::Expr::Path(p) if p.path.get_ident().is_some() => lname_owned = p.path.get_ident().unwrap().to_string(),
+                _ => return Err(format!("lost anchor: `{lname0}` is not an identifier in {path}")),
+            }
+        }
+        let lname = lname_owned.as_str();
         struct FindLet<'x> { name: String, found: Option<&'x syn::Local> }
         impl<'ast> syn::visit::Visit<'ast> for FindLet<'ast> {
             fn visit_local(&mut self, l: &'ast syn::Local) {
@@ -3278,10 +3452,37 @@ pub fn lift_fn(ctx: &mut Ctx, blk: &Block) -> Result<(String, Value), String> {
                 syn::visit::visit_local(self, l);
             }
         }
-        let mut fl = FindLet { name: lname.to_string(), found: None };
-        syn::visit::Visit::visit_block(&mut fl, f.block);
-        let Some(l) = fl.found else { return Err(format!("lost anchor: no binding of `{lname}` in {path}")) };
-        let mut init = (*l.init.as_ref().unwrap().expr).clone();
+        let mut init: syn::Expr;
+        if let Some(aname) = lname.strip_prefix('=') {
+            // L29c `assign_of=<var>`: the right-hand side of the first plain assignment `var = <expr>;`
+            struct FindAssign<'x> { name: String, found: Option<&'x syn::Expr> }
+            impl<'ast> syn::visit::Visit<'ast> for FindAssign<'ast> {
+                fn visit_expr_assign(&mut self, a: &'ast syn::ExprAssign) {
+                    if self.found.is_none() {
+                        // `var = e` or an element assignment `var[..] = e`
+                        let mut l = &*a.left;
+                        if let syn::Expr::Index(ix) = l {
+                            l = &*ix.expr;
+                        }
+                        if let syn::Expr::Path(p) = l {
+                            if p.path.is_ident(&self.name) {
+                                self.found = Some(&a.right);
+                            }
+                        }
+                    }
+                    syn::visit::visit_expr_assign(self, a);
+                }
+            }
+            let mut fa = FindAssign { name: aname.to_string(), found: None };
+            syn::visit::Visit::visit_block(&mut fa, f.block);
+            let Some(r) = fa.found else { return Err(format!("lost anchor: no assignment to `{aname}` in {path}")) };
+            init = r.clone();
+        } else {
+            let mut fl = FindLet { name: lname.to_string(), found: None };
+            syn::visit::Visit::visit_block(&mut fl, f.block);
+            let Some(l) = fl.found else { return Err(format!("lost anchor: no binding of `{lname}` in {path}")) };
+            init = (*l.init.as_ref().unwrap().expr).clone();
+        }
         // L29b `addend=<k>/<n>`: the initialiser is a chain of exactly n top-level `+` operands; lift the k-th (0-based,
         // source order) alone.  Lets a contract speak about one summand of `let h = A + B + C;` at a time.
         if let Some(spec) = blk.opt("addend") {
@@ -3317,6 +3518,55 @@ pub fn lift_fn(ctx: &mut Ctx, blk: &Block) -> Result<(String, Value), String> {
                 }
             }
         }
+        // L29d: immutable `let`s directly before the binding (same block) that the initialiser reads and the directive does
+        // not list are pulled in front of it (adjacent only, like L28b) - a split initialiser keeps its anchor
+        let mut pulled: Vec<syn::Stmt> = Vec::new();
+        if !lname.starts_with('=') {
+            struct FindBlk<'x> { name: String, found: Option<(&'x syn::Block, usize)> }
+            impl<'ast> syn::visit::Visit<'ast> for FindBlk<'ast> {
+                fn visit_block(&mut self, b: &'ast syn::Block) {
+                    if self.found.is_none() {
+                        for (k, st) in b.stmts.iter().enumerate() {
+                            if let syn::Stmt::Local(l) = st {
+                                let id = match &l.pat {
+                                    syn::Pat::Ident(pi) => Some(pi.ident.to_string()),
+                                    syn::Pat::Type(pt) => match &*pt.pat { syn::Pat::Ident(pi) => Some(pi.ident.to_string()), _ => None },
+                                    _ => None,
+                                };
+                                if id.as_deref() == Some(self.name.as_str()) && l.init.is_some() {
+                                    self.found = Some((b, k));
+                                    return;
+                                }
+                            }
+                        }
+                    }
+                    syn::visit::visit_block(self, b);
+                }
+            }
+            let mut fb = FindBlk { name: lname.to_string(), found: None };
+            syn::visit::Visit::visit_block(&mut fb, f.block);
+            if let Some((b, mut k)) = fb.found {
+                while k > 0 {
+                    let mut reads = Vars(vec![]);
+                    syn::visit::Visit::visit_expr(&mut reads, &init);
+                    for st in &pulled {
+                        syn::visit::Visit::visit_stmt(&mut reads, st);
+                    }
+                    let mut ok = false;
+                    if let syn::Stmt::Local(l) = &b.stmts[k - 1] {
+                        if let (syn::Pat::Ident(pi), Some(_)) = (&l.pat, &l.init) {
+                            let n = pi.ident.to_string();
+                            ok = pi.mutability.is_none() && reads.0.contains(&n) && !params.iter().any(|(p, _)| *p == n);
+                        }
+                    }
+                    if !ok {
+                        break;
+                    }
+                    pulled.insert(0, b.stmts[k - 1].clone());
+                    k -= 1;
+                }
+            }
+        }
         let mut vs = Vars(vec![]);
         syn::visit::Visit::visit_expr(&mut vs, &init);
         let mut own: Vec<String> = Vec::new();
@@ -3328,17 +3578,27 @@ pub fn lift_fn(ctx: &mut Ctx, blk: &Block) -> Result<(String, Value), String> {
                 }
             }
             syn::visit::Visit::visit_expr(&mut PB(&mut own), &init);
+            for st in &pulled {
+                syn::visit::Visit::visit_stmt(&mut vs, st);
+                syn::visit::Visit::visit_stmt(&mut PB(&mut own), st);
+            }
         }
         for v_ in &vs.0 {
+            // the receiver is listed as `self_` (its lifted name)
+            if v_ == "self" && params.iter().any(|(n, _)| n == "self_") {
+                continue;
+            }
             if !own.contains(v_) && !params.iter().any(|(n, _)| n == v_) && v_.chars().next().map(|c| c.is_lowercase()).unwrap_or(false) {
                 return Err(format!("construct outside rule list (lift): the initialiser of `{lname}` reads `{v_}`, which is not listed in tail_locals"));
             }
         }
-        synth_block = Some(syn::Block { brace_token: Default::default(), stmts: vec![syn::Stmt::Expr(init, None)] });
+        let mut stmts_ = pulled;
+        stmts_.push(syn::Stmt::Expr(init, None));
+        synth_block = Some(syn::Block { brace_token: Default::default(), stmts: stmts_ });
     }
     let fblock: &syn::Block = synth_block.as_ref().unwrap_or(f.block);
     let ret_ty = match &f.sig.output {
-        _ if blk.opt("closure").is_some() || blk.opt("tail_from").is_some() || blk.opt("let_of").is_some() => blk.opt("ret").ok_or("lift: closure= / tail_from= need ret=<type>")?.to_string(),
+        _ if blk.opt("closure").is_some() || blk.opt("tail_from").is_some() || blk.opt("let_of").is_some() || blk.opt("assign_of").is_some() => blk.opt("ret").ok_or("lift: closure= / tail_from= need ret=<type>")?.to_string(),
         // `ret=<type>` overrides a return type the type lifter cannot read (qualified associated types)
         _ if blk.opt("ret").is_some() => blk.opt("ret").unwrap().to_string(),
         syn::ReturnType::Default => match &out_param {
